@@ -337,6 +337,57 @@ class Xform(Harness):
             raise Violation("expand-structure-differs", f"{got_core} vs {want}")
 
 
+class ExpandSingle(Harness):
+    """A sink is replaced one-for-one by a template that consists of a single node with neither inputs nor outputs (it is a source
+    and a sink at once); the input map names it, so it has to be spliced onto the expanded node's input."""
+
+    name = "xform-expand-single"
+    engine = "E1-crosshair"
+    properties = ("C11",)
+    rule = "one path = (name scheme, whether an input map is given, whether the producer has named outputs); non-trivial = all"
+    assumptions = ["names from the look-alike palettes"]
+    outside = []
+
+    def shards(self, tier):
+        return [{}]
+
+    def budget(self, tier):
+        return 60.0
+
+    def bounds(self, tier):
+        return {"graph": "producer -> X (a sink without outputs)", "template": "one node without inputs and outputs"}
+
+    def functions(self):
+        return [g_expand.expand_graph, g_expand.Splicer, g_transform.Transformer]
+
+    def body(self, ch, params):
+        with ch.untraced():
+            names = list(ch.choose(NAME_SCHEMES, "names"))
+            P, X = names[0], names[1]
+            ch.assume(not P.startswith(X + "."))
+            named = ch.flag("producer_has_named_outputs")
+            use_map = ch.flag("input_map_given")
+            prod = Node(P, outputs=["b", "a"], payload="pp") if named else Node(P, payload="pp")
+            x = Node(X, outputs=[], payload="px", x=prod.get_output("a") if named else prod)
+            g = Graph([x])
+            tname = "only" if use_map else "x"
+
+            def expander(node):
+                if node.name != X:
+                    return None
+                sub = Graph([Node(tname, outputs=[], payload="tonly")])
+                return (sub, {"only": "x"}, {}) if use_map else sub
+
+            ch.note("graph", {"producer": P, "expanded": X, "input_map": use_map})
+            ch.note("nontrivial", True)
+            g2 = guarded("expand", lambda: g_expand.expand_graph(expander, g))
+            got = guarded("expand-result-walk", lambda: graphgen.structure(g2))
+            pouts = ("b", "a") if named else (Node.DEFAULT_OUTPUT,)
+            want = {P: (pouts, repr("pp"), ()), f"{X}.{tname}": ((), repr("tonly"), (("input", P, "a" if named else Node.DEFAULT_OUTPUT),))}
+            if got != want:
+                raise Violation("expand-structure-differs", f"{got} vs {want}")
+
+
 class CutNames(Harness):
     """Two different edges that a split cuts get different cut names (the sink and the source that stand in for a cut edge
     are tied together by that name only), also when node, output and input names contain the characters the name is built with."""
@@ -379,6 +430,7 @@ class CutNames(Harness):
 
 
 register(CutNames())
+register(ExpandSingle())
 register(Xform("xform-copy-rename", ["copy", "rename"]))
 register(Xform("xform-dedup-fuse", ["dedup", "fuse"]))
 register(Xform("xform-split-expand", ["split", "expand"]))
